@@ -141,15 +141,15 @@ def job_query(ctx, mode, what, fmt, reps, iv, prep="ord", samezone=True, window=
                    sample_every=100)
 
 
-def job_neighbours(ctx, mode, fmt, reps, iv, ranges=None, nominal=False):
+def job_neighbours(ctx, mode, fmt, reps, iv, ranges=None, nominal=False, rep=None, k=None, pins=None):
     """r[i] is the i-th iterated point; get_next/get_prev of a member is the
     adjacent member, None at the ends of a bounded series"""
     data = ctx.data
     C.set_mode(data, mode)
     install_range_summary(data, mode)
     kw = NOMINAL[iv] if nominal else INTERVALS[iv]
-    k = reps if reps is not None else 4
-    rep = "cal" if nominal else "ord"
+    k = k or (reps if reps is not None else 4)
+    rep = rep or ("cal" if nominal else "ord")
 
     def make(e):
         return {"a": anchor_input(e, data, "", rep)}
@@ -200,9 +200,9 @@ def job_neighbours(ctx, mode, fmt, reps, iv, ranges=None, nominal=False):
 
     def case_of(v, i):
         return {"check": "neighbours", "mode": mode, "fmt": fmt, "reps": reps, "iv": iv, "nominal": nominal,
-                "a": C.point_case(v, "", rep)}
+                "a": C.point_case(v, "", rep), "k": k}
 
-    return sym_run("neighbours[%s,fmt%d,R%s,%s,%s]" % (mode, fmt, reps, iv, ranges), make, pre, body, post, case_of, ranges=ranges,
+    return sym_run("neighbours[%s,fmt%d,R%s,%s,%s,%s,k=%d]" % (mode, fmt, reps, iv, rep, ranges, k), make, pre, body, post, case_of, ranges=ranges, pins=pins,
                    scenarios=lambda i: {"neighbours": True, "neighbours nominal": nominal},
                    bounds={"interval": iv, "repetitions": reps}, sample_every=100)
 
@@ -221,7 +221,7 @@ def replay(case, M):
         fmt, reps = case["fmt"], case["reps"]
         r = build(data, fmt, reps, a, d, a + d if fmt == 1 else None)
         if what == "neighbours":
-            k = reps if reps is not None else 4
+            k = case.get("k") or (reps if reps is not None else 4)
             pts = take(r, k)
             for j, x in enumerate(pts):
                 if str(r[j]) != str(x):
@@ -295,6 +295,15 @@ def jobs(tier):
         for iv in NOMINAL:
             for fmt, reps in ((3, 3), (3, None), (4, None)):
                 J.append(("job_neighbours", dict(mode=mode, fmt=fmt, reps=reps, iv=iv, nominal=True, ranges={"M": (1, 12), "D": (1, 28)})))
+            # anchors on days that do not exist in every month / year, followed for 6 points
+            for fmt in (3, 4):
+                J.append(("job_neighbours", dict(mode=mode, fmt=fmt, reps=None, iv=iv, nominal=True, k=6,
+                                                 ranges={"M": (1, 3), "D": (28, 31)})))
+                J.append(("job_neighbours", dict(mode=mode, fmt=fmt, reps=None, iv=iv, nominal=True, k=6, rep="ord",
+                                                 ranges={"DOY": (365, 366)})))
+                for res in (104, 399, 4):
+                    J.append(("job_neighbours", dict(mode=mode, fmt=fmt, reps=None, iv=iv, nominal=True, k=7, rep="week",
+                                                     ranges={"W": (52, 53)}, pins=C.residue_pins(res))))
     return J
 
 
